@@ -339,6 +339,10 @@ func c07Once(c *core.Case, o *core.Outcome, p c07Params, reg *scenarios.Scenario
 	ret = r.Metrics
 	S := uint64(k.Started.Load())
 	o.Events += int64(S) + int64(l.Len())
+	if n := engine.HelperSignalsLost.Swap(0); n > 0 {
+		o.Violate("helper-signal-lost:"+p.Desc, "%d bodies waited 10 s for the completion signal of a helper goroutine guarded by CheckResults(t, done) that had ended through FailNow: the signal never came (%s)", n, p.Desc)
+		return
+	}
 	if p.Barrier && bar.stalled {
 		o.Violate("survival:"+p.Desc, "a barrier round of %d workers did not fill within 10 s after %d complete rounds: a worker stopped taking work after a fault (%d distinct handles seen) (%s)", bar.parties, bar.rounds, k.Handles(), p.Desc)
 		return
